@@ -6,8 +6,8 @@ import ast
 from ..report import rule
 from ..model import norm, NotConst, calls_in, stores_in, ShapeError, AnchorMissing, is_self_attr
 from ..paths import enumerate_paths, facts_at, walk_shallow, enclosing_stmt, statements_before
-from ..guards import Evaluator, atom_texts
-from .common import where, path_nodes, feasible, same_function, grid, subst_locals, local_defs
+from ..guards import Evaluator, atom_texts, conjuncts
+from .common import where, path_nodes, feasible, same_function, grid, subst_locals, local_defs, attr_stores
 
 MOD = "pdu"
 ADDR_CLASSES = ["Address", "LocalStation", "RemoteStation", "LocalBroadcast", "RemoteBroadcast", "GlobalBroadcast"]
@@ -87,6 +87,52 @@ def r2(ctx):
     ctx.count("station_packs", n)
 
 
+_BYTES_CALLS = ("bytes", "struct.pack", "xtob", "socket.inet_aton", "bytes.fromhex")
+
+
+def _short(t):
+    return t if len(t) <= 40 else t[:37] + "..."
+
+
+def _octets_kind(f, v, at, depth=0):
+    """'owned' (a fresh immutable bytes value / None), 'alias' (the caller's object, possibly a
+    bytearray) or 'unknown' (not decided)."""
+    if isinstance(v, ast.Constant):
+        return "owned" if v.value is None or isinstance(v.value, bytes) else "unknown"
+    if isinstance(v, ast.Call):
+        t = norm(v.func)
+        if t in _BYTES_CALLS or t.endswith(".to_bytes") or t.endswith(".join") or t.endswith(".encode"):
+            return "owned"
+        return "unknown"
+    if isinstance(v, ast.BinOp) and isinstance(v.op, ast.Add):
+        ks = {_octets_kind(f, v.left, at, depth + 1), _octets_kind(f, v.right, at, depth + 1)}
+        return "alias" if ks == {"alias"} else ("owned" if "owned" in ks else "unknown")   # bytes + x is a new bytes object
+    if isinstance(v, ast.Subscript):
+        return _octets_kind(f, v.value, at, depth + 1)     # a slice of bytes is bytes; of a bytearray a bytearray
+    if isinstance(v, ast.Name) and depth < 4:
+        params = [a.arg for a in f.args.args]
+        defs = [s for t, s in stores_in(f) if isinstance(t, ast.Name) and t.id == v.id and isinstance(s, ast.Assign) and s.lineno < at.lineno]
+        # restricted to bytes by a dominating isinstance test?
+        for fact in facts_at(at):
+            for cj, pol in conjuncts(fact.test, fact.pol):
+                if pol and isinstance(cj, ast.Call) and norm(cj.func) == "isinstance" and norm(cj.args[0]) == v.id:
+                    tt = cj.args[1].elts if isinstance(cj.args[1], ast.Tuple) else [cj.args[1]]
+                    names = {norm(x) for x in tt}
+                    if names <= {"bytes"}:
+                        return "owned"
+                    if "bytearray" in names:
+                        return "alias"
+        if defs:
+            ks = {_octets_kind(f, d.value, d, depth + 1) for d in defs}
+            if v.id in params:
+                ks.add("alias")
+            return "alias" if "alias" in ks and ks <= {"alias"} else ("owned" if ks == {"owned"} else "unknown")
+        return "alias" if v.id in params else "unknown"
+    if isinstance(v, ast.Attribute) and v.attr == "addrAddr":
+        return "owned"
+    return "unknown"
+
+
 @rule("C18.R3", "equal addresses hash equally: every field the hash depends on is compared unconditionally by __eq__", floor=3, engines="E0 field sets")
 def r3(ctx):
     prog = ctx.prog
@@ -117,6 +163,23 @@ def r3(ctx):
                   if fld in cond else "%s contributes to the hash but is not compared by __eq__" % fld, facts={"hashed": sorted(hashed), "compared_unconditionally": sorted(uncond), "compared_conditionally": sorted(cond)})
     for fld in ("addrType", "addrNet", "addrAddr"):
         ctx.check("Address:eq-field[%s]" % fld, fld in uncond and fld in hashed, where(m, e), "%s must take part in both equality and hash" % fld)
+    # the hashed octets are an immutable bytes object the address owns (a caller's bytearray is unhashable and can change under the key)
+    nst = 0
+    for k in m.classes.values():
+        if c not in prog.mro(k):
+            continue
+        for mname, f in k.methods.items():
+            per = {}
+            for tgt, s in attr_stores(f, "addrAddr"):
+                if not isinstance(s, ast.Assign):
+                    continue
+                kind = _octets_kind(f, s.value, s)
+                key = norm(s.value)
+                per[key] = per.get(key, 0) + 1
+                nst += 1
+                ctx.check("%s.%s:octets-owned[%s]#%d" % (k.name, mname, _short(key), per[key]), kind != "alias", where(m, s),
+                          "addrAddr = %s stores the caller's object: a bytearray makes the address unhashable (it still compares equal to the bytes spelling) and later changes to the buffer change the address" % key)
+    ctx.count("addrAddr stores classified", nst)
     ne = c.methods.get("__ne__")
     ok = ne is not None and any(isinstance(r, ast.Return) and norm(r.value) == "not self.__eq__(%s)" % ne.args.args[1].arg for r in walk_shallow(ne))
     ctx.check("Address.__ne__", ok, where(m, ne or c.node), "!= must be the negation of ==")
